@@ -146,12 +146,14 @@ macro_rules! pct_view {
 				let bytes = g(|| p.bytes().collect::<Vec<u8>>());
 				let chars = g(|| p.chars().collect::<String>());
 				let len = g(|| p.len());
+				// the same length asked of the component itself (method call through Deref<Target = PctStr>) must not differ
+				let vlen = g(|| v.len());
 				let decd = g(|| p.decode());
 				let text = chars.clone().unwrap_or_default();
 				let eqs = g(|| *p == *text.as_str());
 				let eq_self = g(|| p == p);
 				format!("{}\t{}\t{}\t{}\t{}\t{}", bytes.map(|x| hex(&x)).unwrap_or("PANIC".into()), chars.map(|x| hex(x.as_bytes())).unwrap_or("PANIC".into()),
-					len.map(|x| x.to_string()).unwrap_or("PANIC".into()), decd.map(|x| hex(x.as_bytes())).unwrap_or("PANIC".into()), b(eqs), b(eq_self))
+					match (len, vlen) { (Some(a), Some(c)) if a == c => a.to_string(), (Some(a), Some(c)) => format!("{}!={} (component.len() versus as_pct_str().len())", a, c), (Some(a), None) => format!("{}!=PANIC (component.len())", a), _ => "PANIC".into() }, decd.map(|x| hex(x.as_bytes())).unwrap_or("PANIC".into()), b(eqs), b(eq_self))
 			}
 		}
 	}};
